@@ -235,8 +235,54 @@ def refine_table(ctx):
     a, b = "self.vertices[:, self.edges[0, :]]", "self.vertices[:, self.edges[1, :]]"
     mids = {(roles.expect("V[:, self.number_of_vertices:]", defs, ln, V=V), roles.expect(f, defs, ln)) for f in ("0.5 * (%s + %s)" % (a, b), "(%s + %s) / 2" % (a, b), "0.5 * %s + 0.5 * %s" % (a, b))}
     mids_ok = old in vs and len(vs & mids) == 1 and len(vs) == 2
-    dom_ok = roles.canon(rets[0].value.args[2], defs).replace(" ", "") == roles.expect("_np.repeat(self.domain_indices, 4)", defs, ln)
+    dom_ok = per_child_sequence(roles.inline(rets[0].value.args[2], defs), "self.domain_indices", 4, "Grid.refine")
     return [children[c] for c in range(4)], mids_ok, dom_ok, fn.lineno
+
+
+def per_child_sequence(node, source, k, what):
+    """Is the expression, evaluated on the parents' per-element sequence `source` = (d0, d1, d2), the sequence that gives
+    child k*e + j the entry of parent e: (d0,)*k + (d1,)*k + (d2,)*k?  Evaluated on a three-element symbolic sequence:
+    np.repeat / .repeat / np.tile / concatenate / hstack / list arithmetic / an integer-division gather; anything else is
+    outside what this evaluation reads (AnalysisError)."""
+    base = ["d0", "d1", "d2"]
+
+    def num(n):
+        if isinstance(n, ast.Constant) and isinstance(n.value, int):
+            return n.value
+        raise AnalysisError("%s: per-child sequence: count `%s` is not a literal" % (what, unparse(n)[:40]))
+
+    def ev(n):
+        txt = unparse(n).replace(" ", "")
+        if txt == source:
+            return list(base)
+        if isinstance(n, ast.Call):
+            f = unparse(n.func).split(".")[-1]
+            recv = n.func.value if isinstance(n.func, ast.Attribute) and not (isinstance(n.func.value, ast.Name) and n.func.value.id in ("_np", "np", "numpy")) else None
+            args = ([recv] if recv is not None else []) + list(n.args)
+            kw = {q.arg: q.value for q in n.keywords}
+            if f == "repeat" and len(args) + ("repeats" in kw) == 2 and set(kw) <= {"repeats", "axis"}:
+                reps = num(args[1] if len(args) == 2 else kw["repeats"])
+                return [x for x in ev(args[0]) for _ in range(reps)]
+            if f == "tile" and len(args) + ("reps" in kw) == 2:
+                return ev(args[0]) * num(args[1] if len(args) == 2 else kw["reps"])
+            if f in ("concatenate", "hstack") and len(args) == 1 and isinstance(args[0], (ast.List, ast.Tuple)):
+                return [x for part in args[0].elts for x in ev(part)]
+            if f in ("array", "asarray", "copy", "astype", "ravel", "flatten") and args:
+                return ev(args[0])
+        if isinstance(n, ast.BinOp) and isinstance(n.op, ast.Mult) and isinstance(n.left, (ast.List, ast.Call)) and isinstance(n.right, ast.Constant):
+            v = ev(n.left.args[0]) if isinstance(n.left, ast.Call) and unparse(n.left.func) == "list" else None
+            if v is not None:
+                return v * num(n.right)
+        if isinstance(n, ast.Subscript) and unparse(n.value).replace(" ", "") == source:
+            i = unparse(n.slice).replace(" ", "")
+            for pat, f in (("arange(%d*N)//%d" % (k, k), lambda j: j // k), ("arange(%d*N)%%N" % k, lambda j: j % 3)):
+                for nname in ("self.number_of_elements", "len(%s)" % source, "%s.shape[0]" % source, "%s.size" % source):
+                    for pre in ("_np.", "np."):
+                        if i in (pre + pat.replace("N", nname), pre + pat.replace("%d*N" % k, "N*%d" % k).replace("N", nname)):
+                            return [base[f(j)] for j in range(3 * k)]
+        raise AnalysisError("%s: per-child sequence `%s` is outside what the evaluation reads" % (what, unparse(n)[:70]))
+
+    return ev(node) == [x for x in base for _ in range(k)]
 
 
 def area2(tri, pts):
